@@ -32,25 +32,51 @@ type config struct {
 	Name string
 	Opt  cron.ParseOption
 	Lay  cronref.Layout
+	Both bool // a field bit together with its own Optional bit
 }
 
 func configs() []config {
 	base := []config{
 		{"standard", cron.Minute | cron.Hour | cron.Dom | cron.Month | cron.Dow,
-			cronref.Layout{Minute: true, Hour: true, Dom: true, Month: true, Dow: cronref.Required}},
+			cronref.Layout{Minute: true, Hour: true, Dom: true, Month: true, Dow: cronref.Required}, false},
 		{"seconds", cron.Second | cron.Minute | cron.Hour | cron.Dom | cron.Month | cron.Dow,
-			cronref.Layout{Second: cronref.Required, Minute: true, Hour: true, Dom: true, Month: true, Dow: cronref.Required}},
+			cronref.Layout{Second: cronref.Required, Minute: true, Hour: true, Dom: true, Month: true, Dow: cronref.Required}, false},
 		{"optional-seconds", cron.SecondOptional | cron.Minute | cron.Hour | cron.Dom | cron.Month | cron.Dow,
-			cronref.Layout{Second: cronref.Optional, Minute: true, Hour: true, Dom: true, Month: true, Dow: cronref.Required}},
+			cronref.Layout{Second: cronref.Optional, Minute: true, Hour: true, Dom: true, Month: true, Dow: cronref.Required}, false},
 		{"optional-dow", cron.Minute | cron.Hour | cron.Dom | cron.Month | cron.DowOptional,
-			cronref.Layout{Minute: true, Hour: true, Dom: true, Month: true, Dow: cronref.Optional}},
+			cronref.Layout{Minute: true, Hour: true, Dom: true, Month: true, Dow: cronref.Optional}, false},
 		{"seconds+optional-dow", cron.Second | cron.Minute | cron.Hour | cron.Dom | cron.Month | cron.DowOptional,
-			cronref.Layout{Second: cronref.Required, Minute: true, Hour: true, Dom: true, Month: true, Dow: cronref.Optional}},
+			cronref.Layout{Second: cronref.Required, Minute: true, Hour: true, Dom: true, Month: true, Dow: cronref.Optional}, false},
 		{"days-only", cron.Dom | cron.Month | cron.Dow,
-			cronref.Layout{Dom: true, Month: true, Dow: cronref.Required}},
+			cronref.Layout{Dom: true, Month: true, Dow: cronref.Required}, false},
 	}
 	var out []config
 	for _, c := range base {
+		out = append(out, c)
+		d := c
+		d.Name += "+descriptors"
+		d.Opt |= cron.Descriptor
+		d.Lay.Descriptors = true
+		out = append(out, d)
+	}
+	// A field bit together with its own Optional bit (NewParser accepts that; it
+	// only refuses two Optional flags). Reading: ParseOption documents
+	// SecondOptional / DowOptional as "Optional seconds / day of week field" and
+	// the parser folds the Optional flag into the field bit, so the field exists
+	// once and may be left out - the same expressions as with the Optional flag
+	// alone: n-1 or n fields, never n+1.
+	both := []config{
+		{"seconds|optional-seconds", cron.Second | cron.SecondOptional | cron.Minute | cron.Hour | cron.Dom | cron.Month | cron.Dow,
+			cronref.Layout{Second: cronref.Optional, Minute: true, Hour: true, Dom: true, Month: true, Dow: cronref.Required}, false},
+		{"dow|optional-dow", cron.Minute | cron.Hour | cron.Dom | cron.Month | cron.Dow | cron.DowOptional,
+			cronref.Layout{Minute: true, Hour: true, Dom: true, Month: true, Dow: cronref.Optional}, false},
+		{"seconds+dow|optional-dow", cron.Second | cron.Minute | cron.Hour | cron.Dom | cron.Month | cron.Dow | cron.DowOptional,
+			cronref.Layout{Second: cronref.Required, Minute: true, Hour: true, Dom: true, Month: true, Dow: cronref.Optional}, false},
+		{"days-only dow|optional-dow", cron.Dom | cron.Month | cron.Dow | cron.DowOptional,
+			cronref.Layout{Dom: true, Month: true, Dow: cronref.Optional}, false},
+	}
+	for _, c := range both {
+		c.Both = true
 		out = append(out, c)
 		d := c
 		d.Name += "+descriptors"
@@ -475,8 +501,8 @@ func run(r *enumx.Run, replay *enumx.ReplayCase) {
 			for i := ch * 512; i < len(ts) && i < (ch+1)*512; i++ {
 				t := ts[i]
 				for ci, c := range cfgs {
-					if c.Lay.Descriptors {
-						continue // the descriptor flag does not touch field expressions; covered in the list sub-space
+					if c.Lay.Descriptors || c.Both {
+						continue // the descriptor flag does not touch field expressions; covered in the list sub-space (so are the field|Optional option sets)
 					}
 					p, opt := c.present()
 					if !p[f] {
@@ -602,6 +628,19 @@ func run(r *enumx.Run, replay *enumx.ReplayCase) {
 		sort.Strings(cl)
 		r.Set("refusal_generators", cl)
 		r.Space("refusal classes: wrong field count (min-2..max+2), value below minimum / above maximum, inverted range, zero step, non-numeric, unknown name, unknown descriptor, unknown zone - each must return an error")
+	}
+
+	// 4b. star-like list items before an invalid item
+	{
+		jobs := starListJobs(cfgs)
+		evalJobs(jobs)
+		r.Space(fmt.Sprintf("lists whose first / middle items are star-like (*, ?, */1, */2, the full range) followed by each invalid item kind (above max, below min, non-numeric, unknown name, inverted range, zero step, empty item) in every field and position (S,BAD  S,BAD,v  v,S,BAD  S,S',BAD  BAD,S): %d cases, verdict from the reference grammar", len(jobs)))
+	}
+
+	// 4c. option sets x Next: the parsed schedule answers Next as the reference does
+	{
+		n := optionSetNext(r, ag, cfgs)
+		r.Space(fmt.Sprintf("every option set (incl. a field bit together with its own Optional bit) x 3-terms-per-field cross product, optional field present and omitted: Next at 2 instants (UTC) equals the reference's: %d cases", n))
 	}
 
 	// 5a. spelled-out full sets: the whole range written without '*' / '?'
@@ -1167,4 +1206,103 @@ func fullSetJobs(cfgs []config) []job {
 		}
 	}
 	return jobs
+}
+
+// ---- star-like list items before an invalid one ------------------------------------------
+
+func starListJobs(cfgs []config) []job {
+	var jobs []job
+	for f := 0; f < 6; f++ {
+		lo, hi := cronref.Range(f)
+		stars := []string{"*", "?", "*/1", "*/2", fmt.Sprintf("%d-%d", lo, hi)}
+		bad := [][2]string{
+			{"above-max", fmt.Sprint(hi + 1)}, {"above-max", fmt.Sprintf("%d-%d", lo, hi+1)}, {"above-max", "99"},
+			{"non-numeric", "x"}, {"non-numeric", "1x"}, {"non-numeric", "5/x"}, {"non-numeric", "*/x"},
+			{"unknown-name", "foo"}, {"unknown-name", "foo-bar"},
+			{"inverted-range", fmt.Sprintf("%d-%d", hi, lo)}, {"inverted-range", fmt.Sprintf("%d-%d", lo+2, lo+1)},
+			{"zero-step", fmt.Sprintf("%d/0", lo)}, {"zero-step", "*/0"}, {"zero-step", fmt.Sprintf("%d-%d/0", lo, hi)},
+			{"empty-item", ""},
+		}
+		if lo > 0 {
+			bad = append(bad, [2]string{"below-min", fmt.Sprint(lo - 1)})
+		} else {
+			bad = append(bad, [2]string{"below-min", "-1"})
+		}
+		for _, st := range stars {
+			for _, b := range bad {
+				lists := []string{st + "," + b[1], st + "," + b[1] + "," + fmt.Sprint(lo), fmt.Sprint(lo) + "," + st + "," + b[1], st + ",*/1," + b[1], st + "," + fmt.Sprint(hi) + "," + b[1], b[1] + "," + st}
+				for _, l := range lists {
+					for ci, c := range cfgs {
+						if c.Lay.Descriptors {
+							continue
+						}
+						p, _ := c.present()
+						if !p[f] {
+							continue
+						}
+						for _, base := range [][6]string{baseStars, baseDistinct} {
+							tok := base
+							tok[f] = l
+							jobs = append(jobs, job{sub: "starlist", field: f, form: b[0], cfg: ci, spec: c.assemble(tok, false)})
+						}
+					}
+				}
+			}
+		}
+	}
+	return jobs
+}
+
+// ---- option sets x Next ------------------------------------------------------------------
+
+func optionSetNext(r *enumx.Run, ag *agg, cfgs []config) int {
+	from, to := time.Date(2004, 12, 1, 0, 0, 0, 0, time.UTC).Unix(), time.Date(2037, 2, 1, 0, 0, 0, 0, time.UTC).Unix()
+	utc, err := cronref.ScanZone("UTC", time.UTC, from, to, false)
+	if err != nil {
+		panic(err)
+	}
+	menu := [6][]string{{"*", "11", "*/20"}, {"*", "22", "5-55/10"}, {"*", "13", "*/6"}, {"*", "24", "*/10"}, {"*", "5", "FEB-DEC/3"}, {"*", "6", "MON-FRI"}}
+	instants := []time.Time{time.Date(2021, 3, 14, 6, 59, 30, 0, time.UTC), time.Date(2024, 2, 29, 12, 0, 0, 500000000, time.UTC)}
+	var total atomic.Int64
+	r.Parallel(len(cfgs), func(ci int) {
+		c := cfgs[ci]
+		_, opt := c.present()
+		parser := cron.NewParser(c.Opt)
+		var n int64
+		for i := 0; i < 729; i++ {
+			var tok [6]string
+			x := i
+			for f := 0; f < 6; f++ {
+				tok[f] = menu[f][x%3]
+				x /= 3
+			}
+			for _, omit := range []bool{false, true} {
+				if omit && opt < 0 {
+					continue
+				}
+				spec := c.assemble(tok, omit)
+				ref := cronref.Parse(spec, c.Lay)
+				if ref.Verdict != cronref.Accept {
+					panic("option-set cross product: " + spec)
+				}
+				sched, err := parser.Parse(spec)
+				if err != nil {
+					continue // reported by the cross sub-space
+				}
+				for _, t := range instants {
+					n++
+					sch := ref.Sched
+					sc := cronref.Scanner{Z: utc, S: &sch, Fast: true}
+					a := sc.Next(t)
+					got := sched.Next(t)
+					if !a.Found || !got.Equal(time.Unix(a.Unix, 0)) {
+						ag.add("parser;optionset-next;field=any;form="+c.Name+";next", rcase{ci, spec}, fmt.Sprintf("Parse(%q) with %s: Next(%s) = %s, the documented meaning of the expression gives %s", spec, c.Name, t.Format(time.RFC3339Nano), got.UTC().Format(time.RFC3339), time.Unix(a.Unix, 0).UTC().Format(time.RFC3339)))
+					}
+				}
+			}
+		}
+		r.Count(n, n)
+		total.Add(n)
+	})
+	return int(total.Load())
 }
